@@ -99,9 +99,22 @@ claim("C02",
       "Proof that an accepted info dictionary has a total length equal to the exact sum of its file lengths (shared with "
       "C06) and that a sub-range read of a piece hands the storage layer exactly the byte ranges that make up "
       "[off, off+len) of the concatenated sections (first section from its inner offset, later sections whole, enough "
-      "sections to cover the request), using prefix-sum spec functions. Partial: piece construction and block layout are "
-      "added as their contracts discharge; torrent creation from a directory is outside.",
+      "sections to cover the request), using prefix-sum spec functions; that NewPieces gives every piece its exact length; and "
+      "that the block layout of a piece is ascending, within the piece, at most one block size each and never inside a "
+      "padding section. Partial: torrent creation from a directory is outside.",
       "DESIGN.md §4 C02")
+
+claim("C11",
+      "Proof, for every field value, that each message type reports the protocol's message id (BEP 3/6/10 numbers taken "
+      "from the property, not from the code), that fixed-layout bodies (have, request, cancel/reject, piece header, port) "
+      "are the big-endian fields in protocol order, that a bitfield body is copied out exactly across reads of any size, "
+      "that the reader hands the torrent the message type that belongs to the id it read (both directions), and that the "
+      "writer puts length = 1 + body length and the id into the first five bytes of the very buffer it sends, also when "
+      "the body outgrew the fixed array (bytes.Buffer modelled as append). Upload accounting: the reported block length is "
+      "the bytes written minus the 13 header bytes. Partial: body bytes inside the writer come from Buffer.ReadFrom and "
+      "are not linked to the Read contracts; reflection-based binary.Read/Write (reader fields, handshake layout), bencoded "
+      "extension payloads and stream fragmentation are outside.",
+      "DESIGN.md §4 C11")
 
 na("C10", "liveness/progress over unbounded schedules of several goroutines: a function contract cannot state fairness or progress measures (DESIGN.md §4 C10)")
 na("C20", "data races and lock-ups quantify over schedules; the contracts are sequential and assume the single-owner discipline C20 asks to prove (DESIGN.md §4 C20)")
